@@ -46,6 +46,8 @@ def explore(ctx):
                     return real_time_mod.time() + (3600 if SteppedClock.calls % 2 else -3600)
             st_mod.time = SteppedClock()
             ctx.count('stepped-wall-clock')
+        if it % 10 == 5:
+            sc['setup_delay'] = 0.12      # set-up before the run's clock starts must not be charged to any pass
         t0 = time.monotonic()
         try:
             o = driver.run_scenario(sc, ctx.tmp)
@@ -70,6 +72,8 @@ def explore(ctx):
         secs = [s.total_seconds for s in o.stats.stats.values()]
         if any(s < 0 for s in secs) or sum(secs) > wall + 1e-6:
             ctx.violation('time', f'pass times {secs} vs elapsed {wall}', rep)
+        elif hasattr(o, 't_run') and sum(secs) > o.t_run + 1e-6:
+            ctx.violation('time', f'pass times {secs} add up to {sum(secs):.3f} s, the run (clock started after the set-up) took {o.t_run:.3f} s', rep)
         each.append((driver.coq_scenario(sc, o.perm), o.out, sc))
         ctx.count(f'N={sc["cfg"]["N"]}:k={len(sc["files"])}')
         if any(p['worked'] for p in o.passes) and any(p['failed'] for p in o.passes) and (o.shim.cancelled or len(o.shim.ran) < sched_calls):
